@@ -166,3 +166,35 @@ Theorem C04_has_group_edge_witness :
   = if has_group_edges_by_name then Some (Some w_my_group) else None.
 Proof. exact has_group_edge_witness. Qed.
 Print Assumptions C04_has_group_edge_witness.
+
+(* ------------------------------------------------------------------------------------------------
+   The exported rows MEAN the flow (Exp/Means*.v).  For every flow of a family (MeansFamily.exportable, decidable):
+   if the exporter model gives rows, the rows have a reference meaning (Flow/RowSem.v: rowsem of Means.abs_rows, the
+   reading of exported rows that harness/rowref.py writes; compared on every generated export, engine 104) and that
+   reference flow has exactly the traces of the flow (Means.flow_of), labels matched up to the names the sheet does not
+   fix (wildcards on the reference side).  [means ueqb ustr numbered strip ns] is that statement for one flow.
+   Uuids are an abstract type with a decidable equality, rendered by any injective function with non-empty values. *)
+From RPFT Require Import Flow.RowSem Exp.Means Exp.MeansFamily Exp.MeansTheorem.
+
+(* stage 1: flows of nodes without routers (chains, joins, cycles), any number of actions per node (merged through the
+   node id; one action per node with strip_uuids) *)
+Theorem C04_to_rows_means_flow_basic_partial :
+  forall (U : Type) (ueqb : U -> U -> bool), (forall a b, ueqb a b = true <-> a = b) ->
+  forall (ustr : U -> str), (forall a b, ustr a = ustr b -> a = b) -> (forall a, ustr a <> []) ->
+  forall numbered strip_uuids (ns : list (node U)),
+    exportable U ueqb ns = true -> basic_only U ns = true -> (strip_uuids = true -> single_rows U ns = true) ->
+    forall rows, to_rows ueqb numbered ns = Ok rows ->
+    exists ref, rowsem nab (abs_rows U ustr strip_uuids rows) = Some ref
+      /\ (forall t, traces (flow_of U ustr ns) t -> exists t', traces ref t' /\ Forall2 (ematch sexp (fun a b => smatch b a)) t t')
+      /\ (forall t, traces ref t -> exists t', traces (flow_of U ustr ns) t' /\ Forall2 (ematch sexp smatch) t t').
+Proof. exact means_basic. Qed.
+Print Assumptions C04_to_rows_means_flow_basic_partial.
+
+(* non-vacuity: a flow with a join and a cycle (1 -> 2 -> 3 -> 2) and a two-action node is in the family, exports to five rows
+   (the back edge is a go_to row, the second action a merged row) and its reference meaning has three nodes *)
+Example C04_to_rows_means_flow_nonvacuous :
+  exportable N N.eqb ex_cycle = true /\ basic_only N ex_cycle = true
+  /\ export_skel ex_cycle = Ok ex_cycle_rows
+  /\ ref_size ex_cycle = Some 3%nat.
+Proof. exact ex_cycle_exportable. Qed.
+Print Assumptions C04_to_rows_means_flow_nonvacuous.
